@@ -1340,6 +1340,85 @@ def d13_no_remembered_positions(chk: Check) -> None:
         raise AnalysisError("positional removals in differ.py: {}".format(n))
 
 
+def d14_report_yields_every_entry(chk: Check) -> None:
+    """`get_report()` hands out every recorded entry, ordered by its index.
+    The index (line.column of the node, or a running number) is *not*
+    unique -- two entries can sit at the same position -- so the entries
+    are sorted as a sequence.  Collecting them in a dict or set keyed by
+    the index keeps one entry per index and silently drops the others: the
+    one real difference can disappear and the documents look the same."""
+    prog = chk.prog
+    chk.rule("C06-D14", "Differ.get_report iterates the recorded entries as "
+             "a sequence (self._diffs, possibly sorted), never through a "
+             "dict / set built from them", floor=1)
+    fi = prog.func("Differ.get_report")
+    keyed = [c for c in walk_local(fi.node)
+             if isinstance(c, (ast.DictComp, ast.SetComp, ast.Dict)) or
+             (isinstance(c, ast.Call) and src(c.func) in ("dict", "set"))]
+    loops = [l for l in walk_local(fi.node) if isinstance(l, ast.For) and
+             any(isinstance(y, (ast.Yield, ast.YieldFrom))
+                 for st in l.body for y in ast.walk(st))]
+    if not loops:
+        raise AnalysisError("get_report: yielding loop not found")
+    text = "get_report: for ... in {}".format(src(loops[0].iter)[:40])
+    if keyed:
+        chk.fail("C06-D14", fi, keyed[0], text,
+                 "the entries are collected under a key first: entries "
+                 "that share it (same position in the file, or no position "
+                 "at all for documents built in memory) overwrite one "
+                 "another and are missing from the report")
+    elif "self._diffs" in src(loops[0].iter):
+        chk.ok("C06-D14", fi, loops[0], text, "every recorded entry")
+    else:
+        chk.fail("C06-D14", fi, loops[0], text,
+                 "the report does not range over self._diffs")
+
+
+def d15_alternate_key_only_when_configured(chk: Check) -> None:
+    """When records are paired by an identity key, a record-specific
+    ("alternate") key may replace the Array-wide one only if the user
+    configured keys at all; with an *inferred* key every record must be
+    looked up by the same field.  Otherwise each right-hand record is
+    matched on its own first field, and a reordered copy of the same
+    records is reported as changed."""
+    prog = chk.prog
+    chk.rule("C06-D15", "synchronize_lods_by_key uses a record's alternate "
+             "key only under the is-user-key flag", floor=1)
+    fi = prog.func("Differ.synchronize_lods_by_key")
+    flags = [src(a.targets[0].elts[1]) for a in walk_local(fi.node)
+             if isinstance(a, ast.Assign) and
+             isinstance(a.targets[0], ast.Tuple) and
+             len(a.targets[0].elts) == 2 and isinstance(a.value, ast.Call)
+             and src(a.value.func).endswith("aoh_diff_key")]
+    flags = [f_ for f_ in flags if f_ != "_"]
+    if not flags:
+        raise AnalysisError("is-user-key flag not found")
+    flag = flags[0]
+    n = 0
+    for a in walk_local(fi.node):
+        if not (isinstance(a, ast.Assign) and isinstance(a.value, (
+                ast.Name, ast.IfExp)) and "alt_key" in src(a.value) and
+                src(a.targets[0]) != "alt_key"):
+            continue
+        n += 1
+        def mentions(e) -> bool:
+            return any(isinstance(x, ast.Name) and x.id == flag
+                       for x in ast.walk(e))
+        guarded = any(f.kind == "cond" and f.pol and mentions(f.expr)
+                      for f in facts_at(a)) or (
+            isinstance(a.value, ast.IfExp) and mentions(a.value.test))
+        text = "synchronize_lods_by_key: {}".format(src(a)[:50])
+        if guarded:
+            chk.ok("C06-D15", fi, a, text, "under `{}`".format(flag))
+        else:
+            chk.fail("C06-D15", fi, a, text,
+                     "the alternate key is used whether or not keys were "
+                     "configured: with an inferred identity key each record "
+                     "is matched on its own first field")
+    if n < 1:
+        raise AnalysisError("alternate-key assignment not found")
+
+
 def run(chk: Check) -> None:
     d1_entries(chk)
     d2_dispatch(chk)
@@ -1367,4 +1446,6 @@ def run(chk: Check) -> None:
     d11_fallback_key_always_found(chk)
     d12_documents_compared_as_given(chk)
     d13_no_remembered_positions(chk)
+    d14_report_yields_every_entry(chk)
+    d15_alternate_key_only_when_configured(chk)
     d6_exit_and_ladders(chk)
